@@ -163,7 +163,7 @@ def mon_C10(case, obs):
         if fails:
             if obs['outcome'] != 'laberror':
                 return ('failure-not-raised', f"continue_on_failure=False, a task failed, run_tasks ended with {obs['outcome']}")
-            if obs.get('cause') not in ('ValueError', 'TaskError', 'TaskDiedError', 'PicklingError'):
+            if obs.get('cause') not in ('ValueError', 'TaskError', 'TaskDiedError', 'PicklingError', 'LookupError'):
                 return ('laberror-without-cause', f"LabError cause is {obs.get('cause')}")
             later = [e for e in obs['events'][fails[0]:] if e[0] == 'submit']
             if later:
@@ -382,6 +382,13 @@ def run(prop, report, tier, seed, replay=None):
                 big = rng.random() < 0.15
                 cases.append(S.gen_case(rng, runner=runner, max_n=(14 if big else 8) if runner in ('l1', 'serial') else 6,
                                         **spec['gen']))
+    if prop == 'C10' and replay is None:
+        # directed: a task that fails while its context is filtered, under every real backend, with and without continue_on_failure
+        for runner in ('serial', 'fork', 'spawn'):
+            for cont in (True, False):
+                cases.append(dict(n=3, types=[13, 0, 13], specs=[['tuple', []], ['tuple', []], ['tuple', [['task', 1, 0]]]], reads=[[], [], [0]],
+                                  behs=['raise', 'ok', 'ok'], req=[[0, 0], [2, 0], [1, 0]], storage='local', bust=False, cont=cont, runner=runner,
+                                  max_workers=2, sched_seed=rng.randrange(1 << 30), pre=[]))
     results, terms = [], []
     dist = Counter()
     if prop == 'C01' and (replay is None or replay['input'].get('level') == 'falsy'):
@@ -515,7 +522,7 @@ def run(prop, report, tier, seed, replay=None):
             # own (it was started before the raise, which is all the property asks); whether that entry is already there when
             # the store is read afterwards is a race, and the run-level model has no term for it
             fin = {e[1] for e in obs['events'] if e[0] == 'finish'}
-            inflight = {e[1] for e in obs['events'] if e[0] == 'submit'} - fin
+            inflight = {e[1] for e in obs['events'] if e[0] == 'submit'} - fin - set(case.get('pre', []))      # (entries that were there before stay)
             if inflight & set(obs.get('final_store', [])):
                 obs['final_store'] = [t for t in obs['final_store'] if t not in inflight]
                 dist['inflight_at_raise_saved_later'] += 1
